@@ -244,11 +244,20 @@ func (k *KnownFindings) Match(v Violation) string {
 		return ""
 	}
 	for _, f := range k.Findings {
-		if f.Property == v.Prop && f.Assert == v.Assert && f.Witness == v.Witness {
+		if f.Property == v.Prop && assertMatch(f.Assert, v.Assert) && f.Witness == v.Witness {
 			return f.ID
 		}
 	}
 	return ""
+}
+
+// assertMatch compares assertion ids; a listed id may end in "*" to cover the
+// readers of one fact (value/row-reader, value/txn-reader, value/any).
+func assertMatch(pat, a string) bool {
+	if n := len(pat); n > 0 && pat[n-1] == '*' {
+		return len(a) >= n-1 && a[:n-1] == pat[:n-1]
+	}
+	return pat == a
 }
 
 func (k *KnownFindings) ByID(id string) *Finding {
